@@ -33,7 +33,7 @@ OP_DOC = {
     "S": "generate code for a simplex form with the process-wide options dict that has sum_factorization=True (as ffcx.main does for several files)",
 }
 TARGETS = ["mass-P1-tri", "nonaffine-quad", "mixed-TH", "interior-facet", "expression", "vector-const-tet", "two-rules-coeff", "prism-ds", "iso-mass-tri", "sumfact-hex",
-           "mass-Q2-hex", "two-mesh-expression", "two-rules-coeff@numba"]
+           "mass-Q2-hex", "two-mesh-expression", "two-rules-coeff@numba", "two-quadels-near"]
 _SHARED = {}
 
 
@@ -180,6 +180,17 @@ def build_target(name):
         m = ufl.Mesh(el("P", "hexahedron", 1, shape=(3,)))
         V = ufl.FunctionSpace(m, el("P", "hexahedron", 2))
         return ufl.TrialFunction(V) * ufl.TestFunction(V) * ufl.dx
+    if name == "two-quadels-near":
+        # two DIFFERENT quadrature elements whose rules agree to rounding only (one typed in with 7 digits): FFCx accepts the pair and takes the
+        # rule of the first one - "first" must not depend on the process
+        import basix
+
+        m = ufl.Mesh(el("P", "triangle", 1, shape=(2,)))
+        pts, wts = basix.make_quadrature(basix.CellType.triangle, 2)
+        qa = basix.ufl.quadrature_element("triangle", points=pts, weights=wts)
+        qb = basix.ufl.quadrature_element("triangle", points=np.round(pts, 7), weights=np.round(wts, 7))
+        fa, fb = ufl.Coefficient(ufl.FunctionSpace(m, qa)), ufl.Coefficient(ufl.FunctionSpace(m, qb))
+        return fa * fb * ufl.TestFunction(ufl.FunctionSpace(m, el("P", "triangle", 1))) * ufl.dx
     if name == "two-mesh-expression":
         # quantities of a parent mesh and of its facet mesh in one expression (two domains to number in the signature)
         m = ufl.Mesh(el("P", "triangle", 1, shape=(2,)))
